@@ -39,9 +39,13 @@ HARNESSES = [
 
 
 def kani(harness, timeout, playback=False):
-    env = dict(os.environ, RUSTFLAGS="--cfg plonk_verif", CARGO_NET_OFFLINE="true")
+    # proof_from_bytes asserts re-encoding: it is built with the canonical-aware point contract
+    # (separate target directory: different cfg flags rebuild the dependency copy)
+    canon = harness == "proof_from_bytes"
+    env = dict(os.environ, RUSTFLAGS="--cfg plonk_verif" + (" --cfg kani_canonical_points" if canon else ""),
+               CARGO_NET_OFFLINE="true")
     lock = os.path.join(KANI_DIR, "Cargo.lock")
-    cmd = ["cargo", "kani", "--target-dir", os.path.join(fw.CACHE, "kani"), "--harness", harness]
+    cmd = ["cargo", "kani", "--target-dir", os.path.join(fw.CACHE, "kani_canon" if canon else "kani"), "--harness", harness]
     if playback:
         cmd += ["-Z", "concrete-playback", "--concrete-playback=print"]
     t0 = time.time()
